@@ -131,7 +131,7 @@ def _child(i, sock_path, body, watch, extra_env, finals=()):
     code = 3
     try:
         os.setsid()
-        signal.signal(signal.SIGINT, signal.SIG_DFL)
+        signal.signal(signal.SIGINT, signal.default_int_handler)
         conn = socket.socket(socket.AF_UNIX, socket.SOCK_STREAM)
         conn.connect(sock_path)
 
@@ -331,6 +331,26 @@ def run_phase(body, nprocs, prefix, exec_dir, watch, kill=None, extra_env=None,
                         blocked.update(late)
                 else:
                     ph.killed_at["not_at_compiler"] = True
+                continue
+            if kill is not None and len(kill) > 2 and kill[2] == "int" and step == kill[1] and ph.killed_at is None:
+                # an INTERRUPT (Ctrl-C: SIGINT to the whole foreground group) instead of a hard kill: the compiler
+                # dies, the loader gets KeyboardInterrupt at the operation it is about to perform and UNWINDS through
+                # its except/finally clauses - every further operation it performs while unwinding is scheduled as
+                # usual.  It may fail; it must not publish a partial library.
+                v = kill[0]
+                at = waiting[v][1] if v in waiting else None
+                ph.killed_at = {"step": step, "victims": [v], "interrupt": True, "at": {str(v): at}}
+                if v in waiting and v not in ph.status:
+                    waiting.pop(v)
+                    try:
+                        os.killpg(pids[v], signal.SIGINT)
+                    except OSError:
+                        pass
+                    late = settle([v], block_timeout)
+                    if late:
+                        blocked.update(late)
+                else:
+                    ph.killed_at["not_reached"] = True
                 continue
             if kill is not None and step == kill[1] and ph.killed_at is None:
                 victims = ids if kill[0] == "all" else [kill[0]]
